@@ -260,9 +260,22 @@ func checkHelpers(c HelperCase) *vk.Violation {
 }
 
 var reg = vk.Registry{
-	"coding":  func(raw json.RawMessage) *vk.Violation { var c Case; _ = json.Unmarshal(raw, &c); v, _ := check(c); return v },
-	"proto":   func(raw json.RawMessage) *vk.Violation { var c ProtoCase; _ = json.Unmarshal(raw, &c); return checkProto(c) },
-	"helpers": func(raw json.RawMessage) *vk.Violation { var c HelperCase; _ = json.Unmarshal(raw, &c); return checkHelpers(c) },
+	"coding": func(raw json.RawMessage) *vk.Violation {
+		var c Case
+		_ = json.Unmarshal(raw, &c)
+		v, _ := check(c)
+		return v
+	},
+	"proto": func(raw json.RawMessage) *vk.Violation {
+		var c ProtoCase
+		_ = json.Unmarshal(raw, &c)
+		return checkProto(c)
+	},
+	"helpers": func(raw json.RawMessage) *vk.Violation {
+		var c HelperCase
+		_ = json.Unmarshal(raw, &c)
+		return checkHelpers(c)
+	},
 }
 
 func TestReplay(t *testing.T) { vk.RunReplay(t, reg) }
